@@ -347,14 +347,18 @@ func runC43(c *Ctx) {
 			if r.Out.Kind != "return" || len(r.Out.Vals) != 1 || r.Out.Vals[0].Kind != vBool {
 				continue
 			}
-			enc := r.Atom(func(a *Atom) bool { return a.IsBool && strings.Contains(a.Key, "json.Marshal(") && strings.Contains(a.Key, "\"{}\"") })
+			enc := r.Atom(func(a *Atom) bool {
+				return a.IsBool && strings.Contains(a.Key, "json.Marshal(") && strings.Contains(a.Key, "\"{}\"")
+			})
 			if r.Out.Vals[0].B {
 				sawTrue = true
 				if enc == nil || !enc.B {
 					ok, why = false, "a struct is declared to serialise to {} (and is rejected, or — when the verdict is false — accepted) without asking encoding/json what it emits for the type: json tags (json:\"-\" on an exported field) and embedded unexported types make the field list alone an unreliable predictor, so types whose whole state is silently dropped by a checkpoint are admitted"
 				}
 			} else if enc != nil && enc.B {
-				errNil := r.Atom(func(a *Atom) bool { return a.IsBool && strings.Contains(a.Key, "json.Marshal(") && strings.Contains(a.Key, "== nil") })
+				errNil := r.Atom(func(a *Atom) bool {
+					return a.IsBool && strings.Contains(a.Key, "json.Marshal(") && strings.Contains(a.Key, "== nil")
+				})
 				if errNil == nil || errNil.B {
 					ok, why = false, "a type that the encoder serialises to {} is not reported as empty"
 				}
@@ -478,7 +482,9 @@ func runC43(c *Ctx) {
 				len(r.Calls(func(e *Effect) bool { return e.Callee != nil && e.Callee.Name() == "serializesToEmpty" })) == 0
 			if trusted {
 				tParam := g.Type().(*types.Signature).Params().At(0).Name()
-				onValue := r.Atom(func(a *Atom) bool { return a.IsBool && a.B && strings.HasPrefix(a.Key, tParam+".Implements(jsonMarshalerType)") })
+				onValue := r.Atom(func(a *Atom) bool {
+					return a.IsBool && a.B && strings.HasPrefix(a.Key, tParam+".Implements(jsonMarshalerType)")
+				})
 				if onValue == nil {
 					return false, "a struct is accepted as having custom JSON without MarshalJSON being present on its value method set (State is marshalled by value: a pointer-receiver MarshalJSON is never invoked and unexported fields are silently dropped)"
 				}
